@@ -23,7 +23,7 @@ func init() {
 		ID: "C17",
 		Rule: "cases: DID documents within the shipped size limits (0..4 verification methods of the supported types, 1..5 relationships each, JWK and raw-bytes material, 0..2 services, also-known-as): VDR.Create -> the long-form DID is decoded by the harness (strict base64url, reference JCS, reference suffix hash) -> VDR.Read must give an equivalent document, the requested id, the short form as equivalent id and the embedded commitments; 12 repeated creations must give one DID; ProcessOperation's result must resolve to itself. Rejections through DocumentHandler.ResolveDocument: every single-character substitution at every position of a valid DID (4 substitutes per position), re-encodings of the initial state (whitespace, member order, '=' padding, embedded newline, non-canonical trailing bits), suffix swapped with another DID's, short form, and handler/DID namespaces related by prefix (did:io, did:ion, did:ionx, did:ion:x, did:ION). distinct = (document shape, rejection class, position bucket).",
 		Assumptions: []string{"harness base64url / JCS / multihash codec", "did-go document parsing for reading back the resolved document"},
-		Require:     []string{"created", "read-back", "repeat-creations", "single-char-changes", "reencodings", "namespace-pairs", "process-operation"},
+		Require:     []string{"created", "read-back", "repeat-creations", "single-char-changes", "single-char-insertions", "single-char-deletions", "reencodings", "namespace-pairs", "process-operation"},
 		Workers:     func(string) int { return 15 },
 		Run:         runC17,
 	})
@@ -110,7 +110,25 @@ func c17Doc(r *fw.Rand) (*docdid.Doc, []c17Key, string) {
 	}
 	for _, id := range genPick(r, []string{"svc", "hub-1", "linked"}, ns) {
 		u := fmt.Sprintf("https://s%d.example.com/%s", r.Intn(100), id)
-		d.Service = append(d.Service, docdid.Service{ID: id, Type: fw.Pick(r, []string{"LinkedDomains", "DIDCommMessaging"}), ServiceEndpoint: endpoint.NewDIDCommV1Endpoint(u)})
+		svc := docdid.Service{ID: id, Type: fw.Pick(r, []string{"LinkedDomains", "DIDCommMessaging"}), ServiceEndpoint: endpoint.NewDIDCommV1Endpoint(u)}
+		// optional members in every combination (a routing key without recipient keys is a legitimate service)
+		if r.Bool() {
+			svc.RoutingKeys = []string{"did:example:r#1"}
+			shape += "R"
+		}
+		if r.Bool() {
+			svc.RecipientKeys = []string{"did:example:123#key-1"}
+			shape += "K"
+		}
+		if r.Chance(1, 3) {
+			svc.Priority = r.Intn(4) + 1
+			shape += "P"
+		}
+		if r.Chance(1, 3) {
+			svc.Accept = []string{"didcomm/aip2;env=rfc19"}
+			shape += "A"
+		}
+		d.Service = append(d.Service, svc)
 		shape += "s"
 	}
 	if r.Chance(1, 3) {
@@ -311,6 +329,29 @@ func c17Case(c *fw.Case, thorough bool) {
 			reject("single-char:"+region, bad, pos*8/len(did))
 		}
 	}
+	// single-character insertions and deletions (segment boundaries always, other positions sampled)
+	boundaries := []int{len("did:ion:"), len(short), len(short) + 1, len(did), len("did:"), len("did:ion")}
+	for i := 0; i < 12; i++ {
+		boundaries = append(boundaries, r.Intn(len(did)+1))
+	}
+	for _, pos := range boundaries {
+		for _, ins := range []string{"A", "0", ":", "-"} {
+			if ins == ":" && (pos == len("did:ion") || pos == len("did:ion:")) {
+				// an extra (empty) method-specific segment between namespace and suffix leaves namespace, suffix and
+				// initial state intact; the statement's conditions for resolution still hold - not demanded
+				if _, err := h.ResolveDocument(did[:pos] + ins + did[pos:]); err == nil {
+					c.Observe("did with an empty extra segment between namespace and suffix resolves (not demanded)")
+				}
+				continue
+			}
+			c.Count("single-char-insertions", 1)
+			reject("single-char-insertion", did[:pos]+ins+did[pos:], pos*8/(len(did)+1))
+		}
+		if pos < len(did) {
+			c.Count("single-char-deletions", 1)
+			reject("single-char-deletion", did[:pos]+did[pos+1:], pos*8/(len(did)+1))
+		}
+	}
 	state := did[len(short)+1:]
 	raw, _ := oracle.B64DecodeStrict(state)
 	reenc := map[string]string{
@@ -432,6 +473,32 @@ func c17Equivalent(res *docdid.DocResolution, did, short string, d *docdid.Doc, 
 			u2, _ := gs.ServiceEndpoint.URI()
 			if fmt.Sprint(gs.Type) != fmt.Sprint(s.Type) || u1 != u2 {
 				return fmt.Sprintf("services: %s differs (%v %s)", s.ID, gs.Type, u2)
+			}
+			if strings.Join(gs.RoutingKeys, "|") != strings.Join(s.RoutingKeys, "|") {
+				return fmt.Sprintf("services: %s routingKeys %v, supplied %v", s.ID, gs.RoutingKeys, s.RoutingKeys)
+			}
+			if len(gs.RecipientKeys) != len(s.RecipientKeys) {
+				return fmt.Sprintf("services: %s recipientKeys %v, supplied %v", s.ID, gs.RecipientKeys, s.RecipientKeys)
+			}
+			for i := range s.RecipientKeys {
+				if !strings.HasSuffix(gs.RecipientKeys[i], s.RecipientKeys[i]) {
+					return fmt.Sprintf("services: %s recipientKeys %v, supplied %v", s.ID, gs.RecipientKeys, s.RecipientKeys)
+				}
+			}
+			// did-go keeps an unknown top-level member such as accept under Properties when parsing
+			gotAccept := gs.Accept
+			if len(gotAccept) == 0 {
+				if l, ok := gs.Properties["accept"].([]interface{}); ok {
+					for _, e := range l {
+						gotAccept = append(gotAccept, fmt.Sprint(e))
+					}
+				}
+			}
+			if strings.Join(gotAccept, "|") != strings.Join(s.Accept, "|") {
+				return fmt.Sprintf("services: %s accept %v, supplied %v", s.ID, gotAccept, s.Accept)
+			}
+			if s.Priority != nil && fmt.Sprint(gs.Priority) != fmt.Sprint(s.Priority) {
+				return fmt.Sprintf("services: %s priority %v, supplied %v", s.ID, gs.Priority, s.Priority)
 			}
 		}
 		if !found {
